@@ -29,7 +29,11 @@ def plan(tier):
 
 def run_case(cs, ctx):
     quick = ctx.tier == 'quick'
-    r = lc.lp_case(cs, ctx, PROFILE, probe_rate=0.1 if quick else 0.3, probe_cap=48 if quick else 160)
+    prof = PROFILE
+    if cs % 9 == 4:
+        prof = dict(PROFILE, name='c04big', big_first=True)     # first optimum >= 10000, then further criteria
+        ctx.cov('first_criterion_with_value_above_10000')
+    r = lc.lp_case(cs, ctx, prof, probe_rate=0.1 if quick else 0.3, probe_cap=48 if quick else 160)
     f = r['facts']
     if f.get('status') == 'Optimal' and f.get('enumerable'):
         if f.get('conflict'):
